@@ -1,8 +1,19 @@
 #!/bin/bash
-# try_mutant.sh <diff> <check> [<check>...]: apply a seeded change to /repo, run the given quick checks, ALWAYS undo.
+# try_mutant.sh <diff> <check> [<check>...]: run the given quick checks against a seeded change.
+# Default: on a scratch copy of /repo (headers + patch) selected with VERIF_REPO, so that /repo itself is never touched
+# while background runs use it.  With MUTANT_IN_PLACE=1: git apply on /repo, run, git checkout (always undone).
 DIFF=$1; shift
-cd /repo && git apply "$DIFF" || { echo APPLY-FAILED; exit 2; }
-trap 'git -C /repo checkout -q -- .' EXIT
+if [ "${MUTANT_IN_PLACE:-0}" = 1 ]; then
+  cd /repo && git apply "$DIFF" || { echo APPLY-FAILED; exit 2; }
+  trap 'git -C /repo checkout -q -- .' EXIT
+  export VERIF_REPO=/repo
+else
+  T=$(mktemp -d /tmp/mutrepo.XXXXXX)
+  trap 'rm -rf "$T"' EXIT
+  cp -r /repo/include /repo/CMakeLists.txt "$T"/ 2>/dev/null
+  (cd "$T" && patch -s -p1 < "$DIFF") || { echo APPLY-FAILED; exit 2; }
+  export VERIF_REPO=$T
+fi
 cd /verif
 for c in "$@"; do
   out=$(python3 bin/check "$c" --tier quick 2>&1); rc=$?
